@@ -44,6 +44,54 @@ def decode(res, rec, where):
     return ev
 
 
+def carriers(rec, rng):
+    """The same 64 bytes held by every kind of buffer object a caller may hand in (the decoder's contract is 'buffer of
+    kd_buf'): items one, two, four or eight bytes wide, read-only and writable, views and copies."""
+    import array
+    import ctypes
+    import mmap
+    yield 'bytearray', bytearray(rec)
+    yield 'memoryview', memoryview(rec)
+    yield 'memoryview of a bytearray', memoryview(bytearray(rec))
+    yield 'slice of a larger memoryview', memoryview(rng.randbytes(7) + rec + rng.randbytes(9))[7:71]
+    for code in 'bBhHiIlLqQfd':
+        a = array.array(code)
+        a.frombytes(rec)
+        yield f"array('{code}')", a
+    for fmt in 'BHIQ':
+        yield f"memoryview.cast('{fmt}')", memoryview(rec).cast(fmt)
+    yield 'memoryview.cast 8x8', memoryview(rec).cast('B', (8, 8))
+    m = mmap.mmap(-1, 64)
+    m.write(rec)
+    yield 'mmap', m
+    yield 'ctypes array', (ctypes.c_uint64 * 8).from_buffer_copy(rec)
+
+    class KdBuf(ctypes.LittleEndianStructure):
+        _fields_ = [('timestamp', ctypes.c_uint64), ('args', ctypes.c_uint64 * 4), ('tid', ctypes.c_uint64),
+                    ('debugid', ctypes.c_uint32), ('cpuid', ctypes.c_uint32), ('unused', ctypes.c_uint64)]
+    yield 'ctypes structure', KdBuf.from_buffer_copy(rec)
+
+
+def decode_carried(res, rec, rng):
+    """One record handed to the real decoder in every kind of buffer: the event is the same as from bytes."""
+    from pykdebugparser import kevent
+    for name, obj in carriers(rec, rng):
+        res.count('carriers_decoded')
+        res.count('carrier ' + name.split('(')[0].strip())
+        try:
+            ev = kevent.from_kd_buf(obj)
+        except Exception as e:
+            res.violation(f'c01-carrier-raises-{core.exc_name(e)}', f'from_kd_buf raised {e!r} on a record handed in as '
+                          f'{name} ({rec.hex()})', {'record': rec})
+            continue
+        bad = monitors.check_event_against_record(rec, ev)
+        if bad:
+            res.violation(bad[0] + '-carrier', f'{bad[1]} (record handed in as {name}; {rec.hex()})', {'record': rec})
+        elif type(ev.data) is not bytes or len(ev.data) != 32:
+            res.violation('c01-carrier-data-type', f'record handed in as {name}: the argument bytes come back as '
+                          f'{type(ev.data).__name__} of length {len(ev.data)}', {'record': rec})
+
+
 def locality(res, base, base_ev, bit):
     rec = bytearray(base)
     rec[bit // 8] ^= 1 << (bit % 8)
@@ -223,6 +271,9 @@ def run(ctx):
         decode(res, rec, 'random')
         res.case(rec)
         res.count('random_records')
+    # (c2) the record held by every kind of buffer object
+    for rec in [bytes(64), b'\xff' * 64, TEST_VECTOR, bytes(range(64))] + [rng.randbytes(64) for _ in range(ctx.pick(300, 5000))]:
+        decode_carried(res, rec, rng)
     # (d) contract on the real function under the container parser
     contract_workload(res, ctx)
     res.sample({'record_hex': TEST_VECTOR.hex(), 'reference': {k: (v.hex() if isinstance(v, bytes) else v)
@@ -234,6 +285,7 @@ def run(ctx):
     res.require('bit_flips', 512)
     res.require('byte_couplings', 1000)
     res.require('threaded_parses', 6)
+    res.require('carriers_decoded', 1000)
     res.require('long_captures_decoded', 4)
     res.require('contract_evaluations', 1)
     return res
